@@ -49,7 +49,11 @@ func (g *Group) render(f *File, w io.Writer, s *Statement) error {
 		prev := s.previous(g)
 		grp, isGrp := prev.(*Group)
 		tkn, isTkn := prev.(token)
-		if isGrp && grp != nil && grp.name == "case" || isTkn && tkn.content == "default" {
+		// only the token that is written as `default:` (see token.render), not a literal or
+		// an identifier whose content happens to be "default"
+		isDefault := isTkn && tkn.content == "default" &&
+			(tkn.typ == keywordToken || tkn.typ == operatorToken || tkn.typ == layoutToken || tkn.typ == delimiterToken)
+		if isGrp && grp != nil && grp.name == "case" || isDefault {
 			// the braces are omitted for this render only: the group itself is not changed
 			open = ""
 			close = ""
